@@ -519,7 +519,7 @@ validate_domain(char ***domainlist)
  * @param ex if this is an exp string
  * @param res the resulting string is stored here
  * @param l offset into res
- * @return number of bytes parsed, -1 on error
+ * @return number of bytes parsed, -1 on error, negative SPF_* code on syntax or DNS error
  */
 static int
 spf_makroletter(const char *p, const char *domain, int ex, char **res, unsigned int *l)
@@ -528,6 +528,10 @@ spf_makroletter(const char *p, const char *domain, int ex, char **res, unsigned 
 	int num, r, delim;
 
 	char ch = *p++;
+	/* "%{" at the very end of the string, there is nothing behind the terminator */
+	if (ch == '\0')
+		PARSEERR;
+
 	int offs = spf_makroparam(p, &num, &r, &delim);
 	p += offs;
 	if ((offs < 0) || (*p != '}'))
